@@ -1,23 +1,115 @@
 (** C06 — tries are an ordered string map with prefix and pattern queries.
-    Statements only.  [b_run b_new es] / [p_run p_new es] are the outputs of the binary-trie /
-    Patricia model on the operation sequence [es]; [s_run [] es] those of the specification
-    (Spec.v: lexicographically sorted association list, every query by its definition). *)
+    Statements only; proofs live in C06/*.v.
+
+    [ev V] are the operations (mutators Put/Delete/DeleteMin/DeleteMax/DeleteAll and every query),
+    [out V] what they return.  [b_run b_new es] / [p_run p_new es] are the outputs of the binary-trie /
+    Patricia model (transcriptions of trie/binary.go and trie/patricia.go) on the operation sequence
+    [es]; [s_run [] es] those of the specification (Spec.v): a lexicographically sorted association
+    list on which every query is its definition (filter / first / last / nth / length).
+    [ev_valid] excludes only the empty key in Put/Get/Delete (the property is about non-empty keys;
+    query arguments may be empty). *)
 From Coq Require Import List NArith ZArith.
-From Algo.C06 Require Import Spec Model ModelPat.
+From Algo.C06 Require Import Spec SpecFacts Model ModelPat ProofsBin ProofsBinQ ProofsBinMain.
 Import ListNotations.
 
 Local Notation a := 97%N.
 Local Notation b := 98%N.
 Local Notation c := 99%N.
-Local Notation x := 120%N.
 Local Notation z := 122%N.
+
+(** * Binary trie: full refinement, every history, every query, present or absent arguments *)
+
+(** After any sequence of operations on non-empty keys the binary trie returns, operation by
+    operation, exactly what the abstract sorted map returns: Size, Get, Min, Max, Floor, Ceiling,
+    Select, Rank, Range, RangeSize, All (ascending), WithPrefix, LongestPrefixOf, Match, and the
+    results of Delete, DeleteMin, DeleteMax.  No operation panics. *)
+Theorem C06_refines_binary :
+  forall (V : Type) (es : list (ev V)), Forall ev_valid es -> b_run b_new es = s_run [] es.
+Proof. intros. now apply binary_refines. Qed.
+
+(** The structural invariant behind it: sibling chains strictly increasing and no non-terminal leaf
+    ([wfb]), size = number of terminal nodes, and the terminal nodes in pre-order are the abstract
+    map, which is strictly sorted. *)
+Theorem C06_binary_invariant :
+  forall (V : Type) (es : list (ev V)), Forall ev_valid es ->
+    let t := b_exec b_new es in
+    wfb None (broot t) /\ bsize t = Z.of_nat (count_terms (broot t)) /\
+    contents (broot t) = s_exec [] es /\ sorted (s_exec [] es).
+Proof. intros. now apply binary_invariant. Qed.
+
+(** * What the specification's definitions mean *)
+
+(** the abstract map is a map: Get after Put / Delete *)
+Theorem C06_spec_get_put : forall (V : Type) k (v : V) k' (m : smap V),
+  sget k' (sput k v m) = if keqb k' k then Some v else sget k' m.
+Proof. intros. apply sget_sput. Qed.
+
+(** deleting a key removes that key only; deleting an absent key changes nothing *)
+Theorem C06_spec_get_delete : forall (V : Type) k k' (m : smap V), sorted m ->
+  sget k' (sdel k m) = if keqb k' k then None else sget k' m.
+Proof. intros. now apply sget_sdel. Qed.
+
+Theorem C06_spec_delete_absent : forall (V : Type) k (m : smap V), sget k m = None -> sdel k m = m.
+Proof. intros. apply sdel_notin. now apply sget_none_inv. Qed.
+
+(** WithPrefix(p): exactly the held keys starting with p *)
+Theorem C06_spec_withprefix : forall (V : Type) p (m : smap V) k v,
+  In (k, v) (s_withprefix p m) <-> In (k, v) m /\ exists s, k = p ++ s.
+Proof. intros. apply s_withprefix_spec. Qed.
+
+(** LongestPrefixOf(s): a held prefix of s that no held prefix of s exceeds in length; none iff no
+    held key is a prefix of s *)
+Theorem C06_spec_longestprefixof : forall (V : Type) s (m : smap V), sorted m ->
+  match s_longestprefix s m with
+  | Some (k, v) =>
+      In (k, v) m /\ is_prefix k s = true /\
+      forall k' v', In (k', v') m -> is_prefix k' s = true -> length k' <= length k
+  | None => forall k' v', In (k', v') m -> is_prefix k' s = false
+  end.
+Proof. intros. now apply s_longestprefix_spec. Qed.
+
+(** Match(pat): exactly the held keys of the pattern's length that agree with it wherever it is not '*' *)
+Theorem C06_spec_match : forall (V : Type) pat (m : smap V) k v,
+  In (k, v) (s_match pat m) <->
+  In (k, v) m /\ length pat = length k /\
+  forall i, i < length pat -> nth i pat 0%N = star \/ nth i pat 0%N = nth i k 0%N.
+Proof. intros. apply s_match_spec. Qed.
+
+(** Floor / Ceiling: greatest held key <= k / least held key >= k *)
+Theorem C06_spec_floor : forall (V : Type) k (m : smap V), sorted m ->
+  match s_floor k m with
+  | Some (k0, v) => In (k0, v) m /\ kleb k0 k = true /\
+                    forall k' v', In (k', v') m -> kleb k' k = true -> kleb k' k0 = true
+  | None => forall k' v', In (k', v') m -> kleb k' k = false
+  end.
+Proof. intros. now apply s_floor_spec. Qed.
+
+Theorem C06_spec_ceiling : forall (V : Type) k (m : smap V), sorted m ->
+  match s_ceiling k m with
+  | Some (k0, v) => In (k0, v) m /\ kleb k k0 = true /\
+                    forall k' v', In (k', v') m -> kleb k k' = true -> kleb k0 k' = true
+  | None => forall k' v', In (k', v') m -> kleb k k' = false
+  end.
+Proof. intros. now apply s_ceiling_spec. Qed.
 
 (** Non-vacuity: deletes of prefixes/extensions, absent arguments, high bytes. *)
 Example C06_example_binary :
   let es := [EPut [a;b] 1%Z; EPut [a] 2%Z; EPut [233%N] 3%Z; EDelete [a;b]; EDelete [a;b]; EGet [a]; ESize;
              ERank [b]; EWithPrefix [a]; ELongestPrefixOf [a;b;c]; EMatch [star]; EDeleteMax; EAll] in
-  b_run b_new es = s_run [] es.
+  b_run b_new es =
+  [OUnit; OUnit; OUnit; OVal (Some 1%Z); OVal None; OVal (Some 2%Z); ONum 2%Z; ONum 1%Z; OList [([a], 2%Z)];
+   OKV (Some ([a], 2%Z)); OList [([a], 2%Z); ([233%N], 3%Z)]; OKV (Some ([233%N], 3%Z)); OList [([a], 2%Z)]].
 Proof. vm_compute. reflexivity. Qed.
+
+(** * Patricia trie *)
+
+(** The full statement.  It is NOT proved, and it is false for the code as it is: see the three
+    refutations below (recorded as known findings).  What holds today for the Patricia trie rests on
+    the correspondence only: the extracted model [p_step] is replayed against trie/patricia.go on every
+    run including structure dumps, and both are compared with the specification on every operation;
+    outside the three recorded shapes no difference is tolerated. *)
+Definition C06_refines_patricia_full : Prop :=
+  forall (V : Type) (es : list (ev V)), Forall ev_valid es -> p_run p_new es = s_run [] es.
 
 Example C06_example_patricia :
   let es := [EPut [a;b] 1%Z; EPut [a] 2%Z; EPut [233%N] 3%Z; EDelete [a;b]; EDelete [a;b]; EGet [a]; ESize;
@@ -49,6 +141,16 @@ Proof.
   split; [repeat constructor; discriminate | split; vm_compute; [reflexivity | discriminate]].
 Qed.
 
+Print Assumptions C06_refines_binary.
+Print Assumptions C06_binary_invariant.
+Print Assumptions C06_spec_get_put.
+Print Assumptions C06_spec_get_delete.
+Print Assumptions C06_spec_delete_absent.
+Print Assumptions C06_spec_withprefix.
+Print Assumptions C06_spec_longestprefixof.
+Print Assumptions C06_spec_match.
+Print Assumptions C06_spec_floor.
+Print Assumptions C06_spec_ceiling.
 Print Assumptions C06_patricia_withprefix_refuted.
 Print Assumptions C06_patricia_longestprefixof_refuted.
 Print Assumptions C06_patricia_trailing_nul_refuted.
